@@ -56,13 +56,19 @@ def gen(rng, op: str) -> ops.OpCase:
                                "bias": bias}, shapes, list(shapes))
     if op == "add":
         shape = tuple(rng.sample(P, rng.randint(1, 4)))
-        mode = rng.choice(["same", "size1", "missing", "both"])
+        mode = rng.choice(["same", "size1", "missing", "both", "missing+size1", "missing+size1"])
         if mode == "same":
             a, b = shape, shape
         elif mode == "size1":
             a, b = shape, tuple(1 if rng.random() < 0.5 else d for d in shape)
         elif mode == "missing":
             a, b = shape, shape[rng.randint(0, len(shape) - 1):]
+        elif mode == "missing+size1":
+            # lower rank AND an expanded size-1 dim in the same operand, e.g. (4,8,16) + (8,1) or (1,16) + (4,8,16)
+            tail = list(shape[rng.randint(1, max(1, len(shape) - 1)):]) or list(shape)
+            j = rng.randrange(len(tail))
+            tail[j] = 1
+            a, b = shape, tuple(tail)
         else:
             a = tuple(1 if i % 2 == 0 else d for i, d in enumerate(shape))
             b = tuple(1 if i % 2 == 1 else d for i, d in enumerate(shape))
@@ -215,7 +221,7 @@ def run(ctx: Ctx) -> None:
             ctx.count(key, bucket=op)
             m = None
             with ctx.guard(f"C03:{op}:call", key):
-                m = ops.measure(U, case, i + 1, i + 3)
+                m = ops.measure(U, case, i + 1, i + 3, warm=(i % 3 == 0))
             if m is None:
                 continue
             counts = measured_counts(case)
